@@ -30,7 +30,7 @@ theorem C05_selected_iff (d : Defects) (s : Schema) (data : Data) (fuel : Nat) (
     (cands : List Row) (r : Row) :
     r ∈ evalRows d s data (fuel + 1) key (fullQuery q) cands false ↔
       r ∈ cands ∧ r.ent = q.ent ∧ (∀ sel ∈ q.sels, subPresent d s data fuel key r sel = true) ∧
-        ∀ f ∈ q.filters, filterHolds d s q.ent r f = true := by
+        ∀ f ∈ q.filters, holds d s data fuel key (fullQuery q) r f = true := by
   rw [evalRows_fullQuery, mem_sortBy, List.mem_filter]
   simp only [Bool.and_eq_true, decide_eq_true_eq, List.all_eq_true]
   constructor
@@ -43,10 +43,15 @@ theorem C05_filters_commute (d : Defects) (s : Schema) (data : Data) (fuel : Nat
     (cands : List Row) (lim : Bool) :
     evalRows d s data (fuel + 1) key (Query.mk ent sels (fs ++ gs) os first skip af bf) cands lim =
     evalRows d s data (fuel + 1) key (Query.mk ent sels (gs ++ fs) os first skip af bf) cands lim := by
-  have : ∀ r : Row, (fs ++ gs).all (filterHolds d s ent r) = (gs ++ fs).all (filterHolds d s ent r) := by
-    intro r; rw [List.all_append, List.all_append, Bool.and_comm]
-  simp [evalRows, Query.ent, Query.sels, Query.filters, Query.orders, Query.after, Query.before,
-    Query.first, Query.skip, this] <;> rfl
+  have hq : ∀ r, holds d s data fuel key (Query.mk ent sels (fs ++ gs) os first skip af bf) r =
+      holds d s data fuel key (Query.mk ent sels (gs ++ fs) os first skip af bf) r :=
+    fun r => funext fun flt => holds_query_irrel ..
+  have hp : ∀ r, (fs ++ gs).all (holds d s data fuel key (Query.mk ent sels (fs ++ gs) os first skip af bf) r) =
+      (gs ++ fs).all (holds d s data fuel key (Query.mk ent sels (gs ++ fs) os first skip af bf) r) := by
+    intro r; rw [hq r, List.all_append, List.all_append, Bool.and_comm]
+  simp only [evalRows, Query.ent, Query.sels, Query.filters, Query.orders, Query.after, Query.before,
+    Query.first, Query.skip, hp]
+  rfl
 
 /-! ## Paging -/
 
@@ -155,13 +160,20 @@ def jInt : J → Option Int
 def nineTen : List Row :=
   [{ id := 1, ent := 0, vals := [(0, .int 9)], refs := [] }, { id := 2, ent := 0, vals := [(0, .int 10)], refs := [] }]
 
-/-- **`min`/`max` compare texts**: over the stored values 9 and 10 the code's `max` is 9 and its `min` is 10
-    (the JSON texts "9" and "10" are compared); the intended behaviour gives 10 and 9. -/
+/-- Regression witness (fixed by 4f128e8): **`min`/`max` compared texts** — over the stored values 9 and 10 the
+    code before the fix returned `max` = 9 and `min` = 10 (the JSON texts "9" and "10" were compared);
+    the code as it is gives 10 and 9. -/
 theorem C05_breaks_minMaxCompareText :
-    jInt (aggValue Defects.asImplemented .max 0 nineTen) = some 9 ∧
-    jInt (aggValue Defects.asImplemented .min 0 nineTen) = some 10 ∧
-    jInt (aggValue Defects.none .max 0 nineTen) = some 10 ∧
-    jInt (aggValue Defects.none .min 0 nineTen) = some 9 := by
+    jInt (aggValue Defects.beforeFixes .max 0 nineTen) = some 9 ∧
+    jInt (aggValue Defects.beforeFixes .min 0 nineTen) = some 10 ∧
+    jInt (aggValue Defects.asImplemented .max 0 nineTen) = some 10 ∧
+    jInt (aggValue Defects.asImplemented .min 0 nineTen) = some 9 := by
+  decide
+
+/-- Regression witness (fixed by a7dcc50): `skip 1` without `first` was refused before the fix, not any more. -/
+theorem C05_breaks_skipWithoutFirst :
+    refused Defects.beforeFixes exSchema 2 (Query.mk 0 [.scalar "f0" 0] [] [] 0 1 [] []) true = true ∧
+    refused Defects.asImplemented exSchema 2 (Query.mk 0 [.scalar "f0" 0] [] [] 0 1 [] []) true = false := by
   decide
 
 /-! ## The hypotheses of `C05_paging` are satisfiable by a non-trivial state -/
